@@ -31,6 +31,30 @@ Theorem debug_only_tracks : forall c st,
   /\ su_tracked (solver_setup c' st) = negb (su_tracked (solver_setup c st)).
 Proof. intros c st. cbn. auto. Qed.
 
+(* a solver built for a logic is used only when the logic covers the encoding: with a non-concurrent buffer (whose level
+   is an array) the logic has arrays, otherwise the general solver is used (fix of finding F44) *)
+Theorem logic_covers_encoding : forall c st n,
+  su_kind (solver_setup c st) = SkSolverFor n ->
+  exists l, cf_logic c = Some l /\ lg_id l = n /\ (needs_arrays st = true -> lg_arrays l = true).
+Proof.
+  intros c st n. unfold solver_setup. cbn [su_kind].
+  assert (Hk : match cf_logic c with
+               | None => SkSolver
+               | Some l => if needs_arrays st && negb (lg_arrays l) then SkSolver else SkSolverFor (lg_id l)
+               end = SkSolverFor n ->
+               exists l, cf_logic c = Some l /\ lg_id l = n /\ (needs_arrays st = true -> lg_arrays l = true)).
+  { destruct (cf_logic c) as [l|]; [|discriminate].
+    destruct (needs_arrays st); destruct (lg_arrays l) eqn:Hl; cbn; try discriminate;
+      intros H; injection H as <-; exists l; repeat split; auto; discriminate. }
+  destruct (objectives st) as [|o os]; [exact Hk|]. destruct (cf_optimizer c); [exact Hk|discriminate].
+Qed.
+Theorem needs_arrays_iff st : needs_arrays st = true <-> exists b, In b (x_bufs (ps_ext st)) /\ b_conc b = false.
+Proof.
+  unfold needs_arrays. rewrite existsb_exists. split; intros (b & Hb & Hc); exists b; split; auto.
+  - now destruct (b_conc b).
+  - now rewrite Hc.
+Qed.
+
 (* ---- every configuration admits exactly the schedules of the configuration-independent assertion set ---- *)
 (* (1) any valuation admitted under any configuration is admitted by initialize st *)
 Theorem any_configuration_is_valid : forall c st e, sat e (su_asserts (solver_setup c st)) -> sat e (initialize st).
